@@ -152,6 +152,17 @@ def ramped_field(x, y, z, *, t, B=0.3, rate=3.0):
     return np.stack([-s * B * y / 2, s * B * x / 2, np.zeros_like(x)], axis=1)
 
 
+def c04_offset(x, y, z, *, cx=0.0, cy=0.0):
+    """a constant vector (a pure gauge) added to the applied potential"""
+    return np.stack([cx + 0 * x, cy + 0 * x, np.zeros_like(x)], axis=1)
+
+
+def slowly_ramped_field(x, y, z, *, t, B=0.5, rate=0.05):
+    """changes by a few parts per million per step: less than any "has it changed?" tolerance, yet it adds up"""
+    s = 1.0 + rate * t
+    return np.stack([-s * B * y / 2, s * B * x / 2, np.zeros_like(x)], axis=1)
+
+
 def solver_level(ctx, stop_first=False):
     """"no step ever runs with stale or partially updated operators": inside real runs, at every evaluation of the
     psi update, the covariant operators in use equal operators built from scratch for the latest vector potential
@@ -167,6 +178,8 @@ def solver_level(ctx, stop_first=False):
         dict(name="td+screening", dev="ring", td=True, o=dict(include_screening=True, screening_tolerance=1e-3), lam=1.0),
         dict(name="td+screening+unpinned-terminals", dev="bar", td=True, cur={"source": 2.0, "drain": -2.0}, o=dict(include_screening=True, screening_tolerance=1e-3, terminal_psi=None), lam=1.0),
         dict(name="td", dev="bar", td=True, cur={"source": 2.0, "drain": -2.0}, o=dict()),
+        dict(name="td-slow-ramp-small-steps", dev="bar", td="slow", cur={"source": 2.0, "drain": -2.0}, o=dict(dt_init=1e-4, solve_time=4e-3)),
+        dict(name="td-slow-ramp+gauge-offset", dev="bar", td="slow", offset=(30.0, -20.0), cur={"source": 2.0, "drain": -2.0}, o=dict(dt_init=1e-3, solve_time=2e-2)),
     ]
     if not ctx.quick:
         cfgs += [
@@ -175,8 +188,13 @@ def solver_level(ctx, stop_first=False):
         ]
     for cfg in cfgs:
         dev = zoo.make_device(cfg["dev"], ctx.rng, max_edge_length=1.2, lam=cfg.get("lam", 2.0))
-        A = tdgl.Parameter(ramped_field, time_dependent=True) if cfg["td"] else 0.5
-        opts = runs.options(solve_time=0.08, dt_init=5e-3, adaptive=False, save_every=100, **cfg["o"])
+        if cfg["td"] == "slow":
+            A = tdgl.Parameter(slowly_ramped_field, time_dependent=True)
+            if cfg.get("offset"):
+                A = A + tdgl.Parameter(c04_offset, cx=cfg["offset"][0], cy=cfg["offset"][1])
+        else:
+            A = tdgl.Parameter(ramped_field, time_dependent=True) if cfg["td"] else 0.5
+        opts = runs.options(**dict(dict(solve_time=0.08, dt_init=5e-3, adaptive=False, save_every=100), **cfg["o"]))
         log = dict(applied=None, induced=None, checked=0, worst=0.0, bad=None)
         o_step, o_upd, o_ind, o_app = TDGLSolver.adaptive_euler_step, TDGLSolver.update, TDGLSolver.get_induced_vector_potential, TDGLSolver.update_applied_vector_potential
 
@@ -243,6 +261,9 @@ def search(ctx):
 def replay(payload):
     ctx = V.Ctx("C10", "quick", int(payload.get("seed", 0)))
     try:
+        if str(payload.get("key", "")).startswith("stale-operators-in-run"):
+            solver_level(ctx)
+            return not any(f["key"] == "stale-operators-in-run" and f["replay"].get("config") == payload.get("config") for f in ctx.oracle_fails)
         for name, mesh, fx, fix_psi, seq in cases(ctx, ctx.rng, True):
             eval_case(ctx, name, mesh, fx, fix_psi, seq, with_model=False)
         return not ctx.oracle_fails
